@@ -270,6 +270,13 @@ def check_child_errors_pass_through(ctx, rule='R7-child-error-passes-through'):
 
 def check_packet_error_class(ctx):
     repo = ctx.repo
+    if ctx.prop == 'C12':
+        # Round 8: a present optional field is parsed, so that a cut at its first byte fails in that field (C08)
+        from .c08 import check_optional
+        try:
+            check_optional(ctx, repo.cls('Optional'))
+        except Undecided as e:
+            ctx.undecided('C08-optional', ('bisturi/structural_fields.py', 'Optional'), 'Optional', str(e), 0)
     check_exception_texts_total(ctx)
     if ctx.prop == 'C12':
         check_child_errors_pass_through(ctx)
